@@ -3,7 +3,12 @@ C06 — finite-volume operators obey the discrete divergence theorem.
 
 Model: `DarsiaModel.FV` on `DarsiaModel.Grid` (generic dimension).  All theorems are for EVERY shape (any number of
 axes, extents incl. 1), every voxel-size list `h`, every flat face flux `U : ℕ → ℚ` and cell field `P : ℕ → ℚ`.
-`divEntry` is the assembled matrix `FVDivergence.mat` (two signed triples per face), `divApply` its product with `U`.
+Operational models (built the way the code builds its result) are `divAssembled` (COO triplets summed into the matrix),
+`faceToCellTable` (zeros + slice accumulations), `connTable`/`revTable` (C07); `div_assembled_eq`, `face_to_cell_table_eq`
+prove them equal to the pointwise forms `divEntry`, `faceToCell` used in the remaining statements.  Theorems marked
+"(unfolds the definition)" only restate a model definition in the vocabulary of the property; their content is the tie.
+The code builds grids only for shapes passing `gridGuard` (dims 1–3, extents ≥ 1, `len(voxel_size) = dim`); the theorems
+hold for the model on every shape and every list `h`.
 -/
 import DarsiaModel.FV
 import DarsiaProofs.FV
@@ -12,6 +17,23 @@ import Mathlib.Tactic.FieldSimp
 import Mathlib.Tactic.Positivity
 namespace Darsia.C06
 open Darsia
+
+/-- **Assembly.** The matrix the code assembles — `2·num_faces` COO triplets `(row = ravel(connectivity), col = repeat(arange),
+data = area·[1,-1])` summed into a `num_cells × num_faces` array — has exactly the entries `divEntry`: `+area` at the lower
+cell of a face, `-area` at its upper cell, nothing else. -/
+theorem div_assembled_eq (shape : List Nat) (h : List Rat) (c f : Nat) (hc : c < numCells shape)
+    (hf : f < numFaces shape) :
+    (divAssembled shape h).getD (c * numFaces shape + f) 0 = divEntry shape h c f :=
+  divAssembled_eq shape h c f hc hf
+
+/-- **`face_to_cell` as coded** — zeros, then per component `cell_flux[:-1 along a, a] += pt_a·U_a` and
+`cell_flux[1: along a, a] += (1-pt_a)·U_a` — is, cell by cell, the linear interpolation `pt_a·u_hi + (1-pt_a)·u_lo` between
+the fluxes through the two opposite faces of the cell (0 for a missing face). -/
+theorem face_to_cell_table_eq (shape : List Nat) (U : Nat → Rat) (pt : List Rat) (a c : Nat) (ha : a < shape.length)
+    (hc : c < numCells shape) :
+    (faceToCellTable shape U pt a).getD c 0 =
+      pt.getD a 0 * uHi shape U a (decF shape c) + (1 - pt.getD a 0) * uLo shape U a (decF shape c) :=
+  faceToCellTable_eq shape U pt a c ha hc
 
 /-- The divergence of a face flux is each cell's net outflow: Σ over axes of face area × (flux through the upper face −
 flux through the lower face), fluxes oriented from the lower- to the higher-index cell, no flux through the outer
@@ -61,7 +83,8 @@ theorem sum_net_outflow_zero (shape : List Nat) (h : List Rat) (U : Nat → Rat)
   rw [← sum_div_zero shape h U]
   exact sumTo_congr fun c hc => (div_is_net_outflow shape h U c hc).symm
 
-/-- Mass matrices (cells and lumped faces) are `voxel volume × identity`, and the volume scales with the voxel sizes. -/
+/-- (unfolds the definition) Mass matrices (cells and lumped faces) are modelled as `voxel volume × identity`; the content
+is the exact correspondence with `FVMass.mat` plus `vol_scale` below. -/
 theorem mass_diag (h : List Rat) (i j : Nat) :
     massEntry h i i = vol h ∧ (i ≠ j → massEntry h i j = 0) := by
   unfold massEntry
@@ -73,9 +96,8 @@ theorem vol_scale (h : List Rat) (s : Rat) : vol (h.map (fun x => s * x)) = s ^ 
   | nil => simp [prodR]
   | cons x xs ih => simp only [List.map_cons, prodR, ih, List.length_cons]; ring
 
-/-- RT0 reconstruction interpolates linearly between the two opposite faces of the cell: component `a` at the
-reference point `pt` is `pt_a · u_hi + (1 − pt_a) · u_lo`; hence the face values at `pt_a = 1` / `0`, their mean at the
-centre, and it is affine in `pt_a`. -/
+/-- Corollaries of the interpolation law (`face_to_cell_table_eq` proves the law for the table the code builds; the first
+conjunct here unfolds the pointwise definition): the face values at `pt_a = 1` / `0`, their mean at the centre. -/
 theorem rt0_interp (shape : List Nat) (U : Nat → Rat) (pt : List Rat) (idx : List Nat) (a : Nat) :
     faceToCell shape U pt idx a = pt.getD a 0 * uHi shape U a idx + (1 - pt.getD a 0) * uLo shape U a idx ∧
     (pt.getD a 0 = 1 → faceToCell shape U pt idx a = uHi shape U a idx) ∧
@@ -104,39 +126,41 @@ theorem rt0_face_value (shape : List Nat) (U : Nat → Rat) (a : Nat) (fidx : Li
   · show (encF shape (faceIdx shape _), encF shape (bump (faceIdx shape _) (faceAxis shape _))) = _
     rw [faceIdx_faceNum shape fidx a ha hb, faceAxis_faceNum shape fidx a ha hb]
 
-/-- Cell-to-face averages: arithmetic mean of the two neighbours of the face, taking for a face of axis `a` the
-component `q a` (the scalar itself / vector component `a` / tensor diagonal `a,a`). -/
+/-- (unfolds the definition) Cell-to-face averages: arithmetic mean of the two neighbours of the face, taking for a face of
+axis `a` the component `q a`; never NaN. -/
 theorem c2f_arith (shape : List Nat) (q : Nat → Nat → Rat) (f : Nat) :
     cellToFace shape .arithmetic q f =
-      (q (faceAxis shape f) (conn shape f).1 + q (faceAxis shape f) (conn shape f).2) / 2 := by
-  simp only [cellToFace]; ring
+      some ((q (faceAxis shape f) (conn shape f).1 + q (faceAxis shape f) (conn shape f).2) / 2) := by
+  simp only [cellToFace]; congr 1; ring
 
-/-- Harmonic mean `2xy/(x+y)` of the two neighbours for positive data (`0` if one of them is `0`). -/
+/-- Harmonic mean `2xy/(x+y)` of the two neighbours for positive data. -/
 theorem c2f_harm (shape : List Nat) (q : Nat → Nat → Rat) (f : Nat)
     (hx : 0 < q (faceAxis shape f) (conn shape f).1) (hy : 0 < q (faceAxis shape f) (conn shape f).2) :
     cellToFace shape .harmonic q f =
-      2 * q (faceAxis shape f) (conn shape f).1 * q (faceAxis shape f) (conn shape f).2 /
-        (q (faceAxis shape f) (conn shape f).1 + q (faceAxis shape f) (conn shape f).2) := by
+      some (2 * q (faceAxis shape f) (conn shape f).1 * q (faceAxis shape f) (conn shape f).2 /
+        (q (faceAxis shape f) (conn shape f).1 + q (faceAxis shape f) (conn shape f).2)) := by
   simp only [cellToFace, hmean2]
-  rw [if_neg (by intro h; rcases h with h | h <;> linarith)]
+  rw [if_neg (by intro h; rcases h with h | h <;> linarith), if_neg (by intro h; rcases h with h | h <;> linarith)]
   have : q (faceAxis shape f) (conn shape f).1 + q (faceAxis shape f) (conn shape f).2 ≠ 0 := by positivity
+  congr 1
   field_simp
   ring
 
-/-- **Component selection.** For a vector-valued cell quantity the average on a face of axis `a` uses component `a` of
-its two neighbours, for a tensor-valued one the diagonal entry `(a, a)`; a scalar is used as it is. -/
+/-- **Component selection** (unfolds `selectComp`, whose tie is the full-array correspondence). For a vector-valued cell
+quantity the average on a face of axis `a` uses component `a` of its two neighbours, for a tensor-valued one the diagonal
+entry `(a, a)`; a scalar is used as it is. -/
 theorem c2f_component_selection (shape : List Nat) (arr : Nat → Rat) (f : Nat) :
-    cellToFaceQ shape .arithmetic .scalar arr f = (arr (conn shape f).1 + arr (conn shape f).2) / 2 ∧
+    cellToFaceQ shape .arithmetic .scalar arr f = some ((arr (conn shape f).1 + arr (conn shape f).2) / 2) ∧
     cellToFaceQ shape .arithmetic .vector arr f =
-      (arr ((conn shape f).1 * shape.length + faceAxis shape f) +
-        arr ((conn shape f).2 * shape.length + faceAxis shape f)) / 2 ∧
+      some ((arr ((conn shape f).1 * shape.length + faceAxis shape f) +
+        arr ((conn shape f).2 * shape.length + faceAxis shape f)) / 2) ∧
     cellToFaceQ shape .arithmetic .tensor arr f =
-      (arr (((conn shape f).1 * shape.length + faceAxis shape f) * shape.length + faceAxis shape f) +
-        arr (((conn shape f).2 * shape.length + faceAxis shape f) * shape.length + faceAxis shape f)) / 2 ∧
+      some ((arr (((conn shape f).1 * shape.length + faceAxis shape f) * shape.length + faceAxis shape f) +
+        arr (((conn shape f).2 * shape.length + faceAxis shape f) * shape.length + faceAxis shape f)) / 2) ∧
     (∀ kind, cellToFaceQ shape .harmonic kind arr f =
       hmean2 (selectComp shape.length kind arr (faceAxis shape f) (conn shape f).1)
         (selectComp shape.length kind arr (faceAxis shape f) (conn shape f).2)) := by
-  refine ⟨?_, ?_, ?_, fun kind => rfl⟩ <;> simp only [cellToFaceQ, cellToFace, selectComp] <;> ring
+  refine ⟨?_, ?_, ?_, fun kind => rfl⟩ <;> simp only [cellToFaceQ, cellToFace, selectComp] <;> congr 1 <;> ring
 
 /-- … in particular the off-diagonal entries of a tensor field (and the other components of a vector field) are never
 read: two arrays that agree on the selected entries have the same face averages, for both modes. -/
@@ -145,13 +169,27 @@ theorem c2f_ignores_other_components (shape : List Nat) (mode : AvgMode) (kind :
     cellToFaceQ shape mode kind arr f = cellToFaceQ shape mode kind arr' f := by
   cases mode <;> simp only [cellToFaceQ, cellToFace, h]
 
-theorem c2f_harm_zero (x y : Rat) (h : x = 0 ∨ y = 0) : hmean2 x y = 0 := by
-  unfold hmean2; rw [if_pos h]
+/-- the shape dispatch: a trailing axis of length 1 is read as a scalar even in 1-D (where it could be a vector), and every
+documented layout is accepted in every dimension 1–3 -/
+theorem c2f_dispatch : ∀ dim ∈ [1, 2, 3],
+    kindOf dim [] = .ok .scalar ∧ kindOf dim [1] = .ok .scalar ∧ kindOf dim [dim, dim] = .ok .tensor ∧
+    (dim ≠ 1 → kindOf dim [dim] = .ok .vector) ∧ kindOf dim [dim + 1] = .error .notImpl := by decide
+
+/-- harmonic mean with a zero and no negative neighbour is `0`; with a negative neighbour it is NaN (`none`) -/
+theorem c2f_harm_edge (x y : Rat) :
+    ((x = 0 ∨ y = 0) → 0 ≤ x → 0 ≤ y → hmean2 x y = some 0) ∧ ((x < 0 ∨ y < 0) → hmean2 x y = none) := by
+  constructor
+  · intro h hx hy
+    unfold hmean2
+    rw [if_neg (by intro h'; rcases h' with h' | h' <;> linarith), if_pos h]
+  · intro h; unfold hmean2; rw [if_pos h]
 
 /-- the harmonic mean lies between 0 and the arithmetic mean for positive data -/
-theorem hmean_le_amean (x y : Rat) (hx : 0 < x) (hy : 0 < y) : 0 < hmean2 x y ∧ hmean2 x y ≤ (x + y) / 2 := by
+theorem hmean_le_amean (x y : Rat) (hx : 0 < x) (hy : 0 < y) :
+    ∃ m, hmean2 x y = some m ∧ 0 < m ∧ m ≤ (x + y) / 2 := by
   unfold hmean2
-  rw [if_neg (by intro h; rcases h with h | h <;> linarith)]
+  rw [if_neg (by intro h; rcases h with h | h <;> linarith), if_neg (by intro h; rcases h with h | h <;> linarith)]
+  refine ⟨_, rfl, ?_⟩
   have hs : 0 < x + y := by positivity
   have e : 2 / (1 / x + 1 / y) = 2 * x * y / (x + y) := by field_simp; ring
   rw [e]
@@ -188,12 +226,18 @@ theorem tangential_const (shape idx : List Nat) (a i : Nat) (U : Nat → Rat) (k
       val _ 0 hl.2 (by omega) (hcomp 0 (by omega)).2, val _ 1 hl.2 (by omega) (hcomp 1 (by omega)).2]
   ring
 
-/-- the full reconstruction keeps the normal component -/
+/-- (unfolds the definition) the full reconstruction keeps the normal component -/
 theorem full_keeps_normal (shape : List Nat) (U : Nat → Rat) (f : Nat) :
     fullFlux shape U f (faceAxis shape f) = U f := by
   simp [fullFlux]
 
 /-! ### non-vacuity -/
+
+/-- the assembled matrix and the accumulated reconstruction on a 3×2 grid -/
+example : (divAssembled [3, 2] [1/2, 1/4]).take 7 = [1/4, 0, 0, 0, 1/2, 0, 0] := by decide +kernel
+example : faceToCellTable [3, 2] (fun f => [1, 2, 3, 4, 5, 6, 7].getD f 0) [1/4, 1/2] 0 = [1/4, 5/4, 3/2, 3/4, 13/4, 3] := by
+  decide +kernel
+
 
 /-- 3×2 grid, voxel sizes (1/2, 1/4): the divergence of a concrete flux, cell by cell, and its zero total -/
 example : (List.range 6).map (divApply [3, 2] [1/2, 1/4] (fun f => [1, 2, 3, 4, 5, 6, 7].getD f 0))
